@@ -259,8 +259,11 @@ def main(tier):
         filesr = [j[1] for j in jobs]
         mism, total = validate_rows(chk, "Rows_JtHookAst", filesr, name="tv", canary_field="none", heap="6g")
         # binding self-test: drop one J from a transformed skeleton
+        rejected_ids = {m[0] for m in mism}
         for line in open(filesr[0]):
             r = json.loads(line)
+            if r["id"] in rejected_ids:
+                continue                 # corrupt a row the specification ACCEPTS
             if r["after_body"] and "J" in r["after_body"][0]["decs"]:
                 r["after_body"][0]["decs"].remove("J")
                 p = os.path.join(wd, "corrupt.ndjson")
